@@ -79,7 +79,10 @@ type codeCfg struct {
 	ptrOption bool
 	// library methods that CHANGE the local value they are called on (buf.WriteString(x)): full name → the Lean function
 	// `f value args… : value'`
-	libMut map[string]string
+	libOut   map[string]string // library / interface methods that store into a MAP argument: the Lean function returns (results…, map)
+	ownArgs  string            // section variables of the prelude (`variable (E : …)`) that a call of one of the receiver's own methods has to pass on
+	assertId bool              // `x.(*T)` on a value whose Lean type is a library type is the value itself (the dynamic type is a fact of the model value)
+	libMut   map[string]string
 }
 
 type unsupported struct{ why string }
@@ -447,6 +450,13 @@ func (m *mctx) expr(e ast.Expr) string {
 	switch x := e.(type) {
 	case *ast.ParenExpr:
 		return "(" + m.expr(x.X) + ")"
+	case *ast.TypeAssertExpr:
+		if m.g.cfg.assertId && x.Type != nil {
+			if tv, ok := m.g.info.Types[x.X]; ok && strings.HasPrefix(m.g.leanType(tv.Type), "Lib.") {
+				return m.expr(x.X)
+			}
+		}
+		bad("type assertion %s", goExprText(x))
 	case *ast.Ident:
 		switch x.Name {
 		case "nil":
@@ -522,7 +532,10 @@ func (m *mctx) expr(e ast.Expr) string {
 		case x.Low != nil && x.High == nil:
 			return "(GoSem.sliceFrom " + m.atom(x.X) + " " + m.atom(x.Low) + ")"
 		}
-		bad("slice expression with both or no bounds")
+		if x.Low != nil && x.High != nil {
+			return "(GoSem.sliceTo (GoSem.sliceFrom " + m.atom(x.X) + " " + m.atom(x.Low) + ") (" + m.expr(x.High) + " - " + m.atom(x.Low) + "))"
+		}
+		bad("slice expression without bounds")
 	case *ast.CompositeLit:
 		if tv, ok := m.g.info.Types[x]; ok {
 			if _, isSl := tv.Type.Underlying().(*types.Slice); isSl {
@@ -710,6 +723,140 @@ func (m *mctx) libFunc(c *ast.CallExpr) (lean string, recv ast.Expr, ok bool) {
 	return
 }
 
+// libOutFunc: a call of a library / interface method that stores into a map argument (cfg.libOut)
+func (m *mctx) libOutFunc(c *ast.CallExpr) (lean string, recv ast.Expr, ok bool) {
+	se, isSel := c.Fun.(*ast.SelectorExpr)
+	if !isSel {
+		return
+	}
+	fn, isFn := m.g.info.Uses[se.Sel].(*types.Func)
+	if !isFn {
+		return
+	}
+	lean, ok = m.g.cfg.libOut[fn.FullName()]
+	return lean, se.X, ok
+}
+
+// mapArgs: the identifiers passed for the map-typed parameters of a call
+func (m *mctx) mapArgs(c *ast.CallExpr) (names []string) {
+	for _, a := range c.Args {
+		tv, ok := m.g.info.Types[a]
+		if !ok {
+			continue
+		}
+		if _, isMap := tv.Type.Underlying().(*types.Map); !isMap || strings.HasPrefix(m.g.leanType(tv.Type), "Lib.") {
+			continue
+		}
+		id, isId := a.(*ast.Ident)
+		if !isId {
+			bad("a map argument that is not an identifier")
+		}
+		names = append(names, id.Name)
+	}
+	return
+}
+
+// ownOut: a call of one of the receiver's own methods that (transitively) stores into a map parameter: which arguments
+func (m *mctx) ownOut(c *ast.CallExpr) (names []string) {
+	se, isSel := c.Fun.(*ast.SelectorExpr)
+	if !isSel || !m.isRecv(se.X) {
+		return nil
+	}
+	fd := m.g.decls[se.Sel.Name]
+	if fd == nil {
+		return nil
+	}
+	for _, i := range m.g.mutatedMapParams(fd, map[string]bool{}) {
+		if i < len(c.Args) {
+			id, isId := c.Args[i].(*ast.Ident)
+			if !isId {
+				bad("a map argument that is not an identifier")
+			}
+			names = append(names, id.Name)
+		}
+	}
+	return
+}
+
+// mutatedMapParams: the indices of the map-typed parameters of a method whose entries the body may change — by a store, a
+// delete, a call of a cfg.libOut method, or a call of another of the receiver's methods that does
+func (g *goTranslator) mutatedMapParams(fd *ast.FuncDecl, busy map[string]bool) (idx []int) {
+	if fd.Body == nil || busy[fd.Name.Name] {
+		return nil
+	}
+	busy[fd.Name.Name] = true
+	defer delete(busy, fd.Name.Name)
+	pos := map[string]int{}
+	k := 0
+	for _, f := range fd.Type.Params.List {
+		_, isMap := g.info.Types[f.Type].Type.Underlying().(*types.Map)
+		if isMap && strings.HasPrefix(g.leanType(g.info.Types[f.Type].Type), "Lib.") {
+			isMap = false // a library type that happens to be a map (http.Header): a value
+		}
+		if len(f.Names) == 0 {
+			k++
+			continue
+		}
+		for _, n := range f.Names {
+			if isMap {
+				pos[n.Name] = k
+			}
+			k++
+		}
+	}
+	hit := map[int]bool{}
+	mark := func(e ast.Expr) {
+		if id, ok := e.(*ast.Ident); ok {
+			if i, isP := pos[id.Name]; isP {
+				hit[i] = true
+			}
+		}
+	}
+	recvName := ""
+	if fd.Recv != nil && len(fd.Recv.List) == 1 && len(fd.Recv.List[0].Names) == 1 {
+		recvName = fd.Recv.List[0].Names[0].Name
+	}
+	ast.Inspect(fd.Body, func(n ast.Node) bool {
+		switch x := n.(type) {
+		case *ast.AssignStmt:
+			for _, l := range x.Lhs {
+				if ie, ok := l.(*ast.IndexExpr); ok {
+					mark(ie.X)
+				}
+			}
+		case *ast.CallExpr:
+			if id, ok := x.Fun.(*ast.Ident); ok && id.Name == "delete" && len(x.Args) == 2 {
+				mark(x.Args[0])
+			}
+			if se, ok := x.Fun.(*ast.SelectorExpr); ok {
+				if fn, isFn := g.info.Uses[se.Sel].(*types.Func); isFn {
+					if _, isOut := g.cfg.libOut[fn.FullName()]; isOut {
+						for _, a := range x.Args {
+							mark(a)
+						}
+					}
+				}
+				if rid, ok := se.X.(*ast.Ident); ok && rid.Name == recvName && recvName != "" {
+					if callee := g.decls[se.Sel.Name]; callee != nil {
+						for _, i := range g.mutatedMapParams(callee, busy) {
+							if i < len(x.Args) {
+								mark(x.Args[i])
+							}
+						}
+					}
+				}
+			}
+		}
+		return true
+	})
+	for i := 0; i < k; i++ {
+		if hit[i] {
+			idx = append(idx, i)
+		}
+	}
+	return
+}
+
 // libMutCall: x.M(args) with x a local value and M a library method that changes it
 func (m *mctx) libMutCall(c *ast.CallExpr) (lean, local string, ok bool) {
 	se, isSel := c.Fun.(*ast.SelectorExpr)
@@ -756,6 +903,26 @@ func (m *mctx) call(c *ast.CallExpr) string {
 			return m.envCall(f, name, c.Args[1:], n)
 		}
 		bad("%s on something that is not an environment field", name)
+	}
+	if lean, recv, ok := m.libOutFunc(c); ok {
+		parts := []string{lean, m.atom(recv)}
+		for _, a := range c.Args {
+			parts = append(parts, m.atom(a))
+		}
+		outs := m.mapArgs(c)
+		if len(outs) != 1 {
+			bad("a call of %s with %d map arguments", lean, len(outs))
+		}
+		sig, _ := m.g.info.Types[c.Fun].Type.(*types.Signature)
+		var rs []string
+		for i := 0; sig != nil && i < sig.Results().Len(); i++ {
+			rs = append(rs, m.fresh())
+		}
+		m.hoist(fmt.Sprintf("let %s := %s;", tuple(append(append([]string{}, rs...), leanIdent(outs[0]))), strings.Join(parts, " ")))
+		if len(rs) == 0 {
+			return "()"
+		}
+		return tuple(rs)
 	}
 	if lean, recv, ok := m.libFunc(c); ok {
 		// a method the receiver gets from an embedded struct (`l.matchHeader(h)` of baseLeaf) may be in the table too: it is then
@@ -995,7 +1162,22 @@ func (m *mctx) call(c *ast.CallExpr) string {
 		if len(args) > 0 {
 			sp = " " + strings.Join(args, " ")
 		}
-		m.hoist(fmt.Sprintf("let (%s, %s) := %s %s%s;", r, w, leanIdent(se.Sel.Name), w, sp))
+		if outs := m.ownOut(c); len(outs) > 0 {
+			var rs []string
+			for i := 0; i < nres; i++ {
+				rs = append(rs, m.fresh())
+			}
+			all := append([]string{}, rs...)
+			for _, o := range outs {
+				all = append(all, leanIdent(o))
+			}
+			m.hoist(fmt.Sprintf("let (%s, %s) := %s%s %s%s;", tuple(all), w, leanIdent(se.Sel.Name), m.g.cfg.ownArgs, w, sp))
+			if nres == 0 {
+				return "()"
+			}
+			return tuple(rs)
+		}
+		m.hoist(fmt.Sprintf("let (%s, %s) := %s%s %s%s;", r, w, leanIdent(se.Sel.Name), m.g.cfg.ownArgs, w, sp))
 		if nres == 0 {
 			return "()"
 		}
@@ -1217,6 +1399,25 @@ func (m *mctx) assigned(stmts []ast.Stmt) (vars []string, recv bool) {
 					}
 					break
 				}
+				if _, _, isOut := m.libOutFunc(x); isOut {
+					for _, id := range m.mapArgs(x) {
+						if !declared[id] && !seen[id] {
+							seen[id] = true
+							vars = append(vars, leanIdent(id))
+						}
+					}
+					break
+				}
+				if outs := m.ownOut(x); len(outs) > 0 {
+					for _, id := range outs {
+						if !declared[id] && !seen[id] {
+							seen[id] = true
+							vars = append(vars, leanIdent(id))
+						}
+					}
+					recv = true
+					break
+				}
 				if _, _, isLib := m.libFunc(x); isLib {
 					break
 				}
@@ -1302,6 +1503,20 @@ func (m *mctx) stmts(list []ast.Stmt, tail func() string, ind string) string {
 		}
 		switch x := s.(type) {
 		case *ast.ReturnStmt:
+			if len(x.Results) == 1 && len(m.resTypes) > 1 {
+				// `return f(…)` with f returning several values
+				v := m.expr(x.Results[0])
+				m.flush(&b, ind)
+				var ns []string
+				for range m.resTypes {
+					ns = append(ns, m.fresh())
+				}
+				b.WriteString(fmt.Sprintf("%slet %s := %s;\n", ind, tuple(ns), v))
+				x = &ast.ReturnStmt{Return: x.Return}
+				saved := m.results
+				m.results = ns
+				defer func() { m.results = saved }()
+			}
 			vals := make([]string, len(x.Results))
 			for j, r := range x.Results {
 				if id, ok := r.(*ast.Ident); ok && id.Name == "nil" && j < len(m.resTypes) {
@@ -2355,22 +2570,25 @@ func (g *goTranslator) method(fd *ast.FuncDecl) (mo *methodOut, err error) {
 			}
 		}
 	}
+	m.resTypes = append([]string{}, resT...)
 	// a map parameter the body stores into: the caller sees the stores in Go; here the map after the call is an extra result
 	{
-		vars, _ := m.assigned(fd.Body.List)
-		isVar := map[string]bool{}
-		for _, v := range vars {
-			isVar[v] = true
+		mut := map[int]bool{}
+		for _, i := range g.mutatedMapParams(fd, map[string]bool{}) {
+			mut[i] = true
 		}
+		k := 0
 		for _, f := range fd.Type.Params.List {
-			if _, isMap := g.info.Types[f.Type].Type.Underlying().(*types.Map); !isMap {
+			if len(f.Names) == 0 {
+				k++
 				continue
 			}
 			for _, n := range f.Names {
-				if isVar[leanIdent(n.Name)] {
+				if mut[k] {
 					m.outParams = append(m.outParams, leanIdent(n.Name))
 					resT = append(resT, g.leanType(g.info.Types[f.Type].Type))
 				}
+				k++
 			}
 		}
 	}
